@@ -10,6 +10,7 @@ constants (None/bool/int/str) are inlined, `len` becomes XLen, everything else b
 what each opaque callable is assumed to do."""
 import ast
 import builtins
+import decimal
 import inspect
 import textwrap
 
@@ -135,6 +136,11 @@ class FuncTranslator:
             obj = getattr(obj, a)
         if obj is None or isinstance(obj, (bool, int, str)):
             return self.const(obj)
+        if isinstance(obj, decimal.Decimal) and obj.is_finite():
+            # a module-level Decimal constant (beancount.core.number.ZERO, ...): inlined (bld-env, additive)
+            sign, digits, exp = obj.as_tuple()
+            coef = int(''.join(map(str, digits)) or '0')
+            return (f'(XConst (PV (VDec (mkdec {"true" if sign else "false"} {gz(coef)} {gz(exp)}))))')
         if name in self.nonlocals and '.' not in dotted:
             # a callable captured by the enclosing decorator (the wrapped function): abstract, one ref per variable
             return f'(XConst (PRef {self.refs.ref("closure:" + name)}))'
